@@ -68,15 +68,17 @@ Definition specs_of (files : list file) : list impspec :=
 Definition tags (files : list file) : list (string * option (option string)) :=
   map (fun s => (is_path s, tag_rule s)) (specs_of files).
 
-(* no import path is written as a raw (back-quoted) string literal *)
-Definition no_raw (files : list file) : Prop := forall s, In s (specs_of files) -> is_raw s = false.
-
 Definition alias_str (t : option string) : string := match t with None => EmptyString | Some a => a end.
 
 Definition named_tags (l : list (string * option (option string))) : list (string * string) :=
   flat_map (fun pt => match snd pt with Some (Some a) => [(fst pt, a)] | _ => [] end) l.
 Definition root_tags (l : list (string * option (option string))) : list string :=
   flat_map (fun pt => match snd pt with Some None => [fst pt] | _ => [] end) l.
+
+(* the named imports of a package: every (path, alias) pair once, however many specs carry it *)
+Definition pair_dec (a b : string * string) : {a = b} + {a <> b}.
+Proof. decide equality; apply string_dec. Defined.
+Definition distinct (l : list (string * string)) : list (string * string) := nodup pair_dec l.
 
 (* names: the package's own name of a target, and the name it gets under an alias *)
 Definition own_name (f : func) : string :=
@@ -141,26 +143,33 @@ Proof.
   simpl. rewrite (NE a); [reflexivity|simpl; auto].
 Qed.
 
-Lemma tagged_code : forall s, tagged s = if is_raw s then None else tag_rule s.
+Lemma tagged_gen_code : forall lit_ok s,
+  tag_of (get_import_path_gen from_group lit_ok s) = if lit_ok s then tag_rule s else None.
 Proof.
-  intros s; unfold tagged, get_import_path, get_import_path_gen, tag_rule.
+  intros lit_ok s; unfold get_import_path_gen, tag_rule.
   rewrite !from_group_spec.
   destruct (import_line_of (is_doc s)) as [l|] eqn:EL.
   - destruct (import_line_words _ _ EL) as (w & ws & Hw).
     unfold line_shape. pose proof (line_words_nonempty l) as NE.
     destruct (line_words l) as [|w' ws']; [discriminate|].
-    cbv beta iota zeta. destruct (is_raw s); [reflexivity|].
+    cbv beta iota zeta. destruct (lit_ok s); [|reflexivity].
     exact (shape_of_vals (is_path s) (w' :: ws') NE).
-  - destruct (import_line_of (is_comment s)) as [l|] eqn:ET; [|destruct (is_raw s); reflexivity].
+  - destruct (import_line_of (is_comment s)) as [l|] eqn:ET; [|destruct (lit_ok s); reflexivity].
     destruct (import_line_words _ _ ET) as (w & ws & Hw).
     unfold line_shape. pose proof (line_words_nonempty l) as NE.
     destruct (line_words l) as [|w' ws']; [discriminate|].
-    cbv beta iota zeta. destruct (is_raw s); [reflexivity|].
+    cbv beta iota zeta. destruct (lit_ok s); [|reflexivity].
     exact (shape_of_vals (is_path s) (w' :: ws') NE).
 Qed.
 
-Lemma tagged_is_rule : forall s, is_raw s = false -> tagged s = tag_rule s.
-Proof. intros s H. now rewrite tagged_code, H. Qed.
+Lemma tagged_is_rule : forall s, tagged s = tag_rule s.
+Proof. intros s. exact (tagged_gen_code lit_ok_now s). Qed.
+
+Lemma tagged_before_48f17db_code : forall s, tagged_before_48f17db s = if is_raw s then None else tag_rule s.
+Proof.
+  intros s. unfold tagged_before_48f17db, get_import_path_before_48f17db.
+  rewrite tagged_gen_code. unfold lit_ok_before_48f17db. destruct (is_raw s); reflexivity.
+Qed.
 
 Lemma last_line_snoc : forall pre x, last_line (Some (pre ++ [x])) = Some x.
 Proof.
@@ -170,20 +179,20 @@ Proof.
   - rewrite <- E. now rewrite last_last.
 Qed.
 
-Lemma any_length : forall pre tagline tr path,
+Lemma any_length : forall pre tagline tr path raw,
   is_import_line tagline = true ->
-  tagged {| is_doc := Some (pre ++ [tagline]); is_comment := tr; is_path := path; is_raw := false |} = line_shape tagline.
+  tagged {| is_doc := Some (pre ++ [tagline]); is_comment := tr; is_path := path; is_raw := raw |} = line_shape tagline.
 Proof.
-  intros. rewrite tagged_is_rule by reflexivity. unfold tag_rule, import_line_of; cbn [is_doc is_comment].
+  intros. rewrite tagged_is_rule. unfold tag_rule, import_line_of; cbn [is_doc is_comment].
   rewrite last_line_snoc, H. reflexivity.
 Qed.
 
-Lemma any_length_not_last : forall pre lastline tr path,
+Lemma any_length_not_last : forall pre lastline tr path raw,
   is_import_line lastline = false ->
-  tagged {| is_doc := Some (pre ++ [lastline]); is_comment := tr; is_path := path; is_raw := false |} =
-  tagged {| is_doc := None; is_comment := tr; is_path := path; is_raw := false |}.
+  tagged {| is_doc := Some (pre ++ [lastline]); is_comment := tr; is_path := path; is_raw := raw |} =
+  tagged {| is_doc := None; is_comment := tr; is_path := path; is_raw := raw |}.
 Proof.
-  intros. rewrite !tagged_is_rule by reflexivity. unfold tag_rule, import_line_of; cbn [is_doc is_comment].
+  intros. rewrite !tagged_is_rule. unfold tag_rule, import_line_of; cbn [is_doc is_comment].
   rewrite last_line_snoc, H. reflexivity.
 Qed.
 
@@ -204,10 +213,10 @@ Proof.
   destruct s as [[d|] c p raw]; reflexivity.
 Qed.
 
-Lemma single_line_import : forall doc tr path,
+Lemma single_line_import : forall doc tr path raw,
   specs_of [[ {| gd_doc := doc; gd_lparen := false;
-                 gd_specs := [ {| is_doc := None; is_comment := tr; is_path := path; is_raw := false |} ] |} ]] =
-  [ {| is_doc := doc; is_comment := tr; is_path := path; is_raw := false |} ].
+                 gd_specs := [ {| is_doc := None; is_comment := tr; is_path := path; is_raw := raw |} ] |} ]] =
+  [ {| is_doc := doc; is_comment := tr; is_path := path; is_raw := raw |} ].
 Proof. reflexivity. Qed.
 
 Lemma grouped_import : forall doc specs,
@@ -235,10 +244,10 @@ Lemma fold_left_ext : forall {A B} (f g : A -> B -> A) (l : list B) (a : A),
   (forall a x, f a x = g a x) -> fold_left f l a = fold_left g l a.
 Proof. intros A B f g l; induction l as [|x l IH]; intros a H; simpl; [reflexivity|]. rewrite H. now apply IH. Qed.
 
-Lemma scan_flat : forall gip files,
-  scan gip files = fold_left (scan_step gip) (specs_of files) ([], []).
+Lemma scan_flat : forall gip put files,
+  scan gip put files = fold_left (scan_step gip put) (specs_of files) ([], []).
 Proof.
-  intros gip files; unfold scan, specs_of.
+  intros gip put files; unfold scan, specs_of.
   rewrite fold_left_flat_map. apply fold_left_ext; intros a f.
   unfold scan_file. rewrite fold_left_flat_map. apply fold_left_ext; intros a' gen.
   unfold scan_decl. rewrite fold_left_map. apply fold_left_ext; intros a'' s.
@@ -247,30 +256,23 @@ Qed.
 
 Lemma gip_path : forall s p a, get_import_path s = Some (p, a) -> p = is_path s.
 Proof.
-  intros s p a; unfold get_import_path, get_import_path_gen.
-  destruct (is_raw s);
-  (destruct (from_group (is_doc s)) as [|x [|y [|z r]]];
-    [destruct (from_group (is_comment s)) as [|x [|y [|z r]]]|..]; intros H; inversion H; reflexivity).
+  intros s p a; unfold get_import_path, get_import_path_gen, lit_ok_now; cbn [negb].
+  destruct (from_group (is_doc s)) as [|x [|y [|z r]]];
+    [destruct (from_group (is_comment s)) as [|x [|y [|z r]]]|..]; intros H; inversion H; reflexivity.
 Qed.
 
-Definition set_all (l : list (string * string)) (m : list (string * string)) : list (string * string) :=
-  fold_left (fun m pa => map_set (fst pa) (snd pa) m) l m.
+Definition put_all (l : list (string * string)) (m : list (string * string)) : list (string * string) :=
+  fold_left (fun m pa => set_put (fst pa) (snd pa) m) l m.
 
-Definition tags_of_specs (l : list impspec) := map (fun s => (is_path s, tagged s)) l.
-
-Lemma tags_of_specs_rule : forall files, no_raw files -> tags_of_specs (specs_of files) = tags files.
-Proof.
-  intros files NR. unfold tags_of_specs, tags. apply map_ext_in. intros s I.
-  now rewrite tagged_is_rule by (apply NR, I).
-Qed.
+Definition tags_of_specs (l : list impspec) := map (fun s => (is_path s, tag_rule s)) l.
 
 Lemma scan_steps : forall l m r,
-  fold_left (scan_step get_import_path) l (m, r) =
-  (set_all (named_tags (tags_of_specs l)) m, r ++ root_tags (tags_of_specs l)).
+  fold_left (scan_step get_import_path set_put) l (m, r) =
+  (put_all (named_tags (tags_of_specs l)) m, r ++ root_tags (tags_of_specs l)).
 Proof.
   induction l as [|s l IH]; intros m r; simpl.
   - now rewrite app_nil_r.
-  - unfold scan_step at 2. assert (T : tag_of (get_import_path s) = tagged s) by reflexivity.
+  - unfold scan_step at 2. pose proof (tagged_is_rule s) as T. unfold tagged in T.
     destruct (get_import_path s) as [[p a]|] eqn:G; simpl in T.
     + apply gip_path in G as ->.
       destruct (is_empty a) eqn:E; rewrite <- T; simpl.
@@ -279,7 +281,71 @@ Proof.
     + rewrite <- T; simpl. apply IH.
 Qed.
 
-(* ---------------------------------------------------------------- the map *)
+(* ---------------------------------------------------------------- the set of (path, alias) pairs *)
+Lemma pair_eqb_eq : forall a b, pair_eqb a b = true <-> a = b.
+Proof.
+  intros [a1 a2] [b1 b2]; unfold pair_eqb; simpl. rewrite andb_true_iff, !String.eqb_eq.
+  split; [intros [-> ->]; reflexivity|intros H; inversion H; auto].
+Qed.
+
+Lemma mem_in : forall k m, existsb (pair_eqb k) m = true <-> In k m.
+Proof.
+  intros k m. rewrite existsb_exists. split.
+  - intros (x & I & E). apply pair_eqb_eq in E. now subst.
+  - intros I. exists k; split; [exact I|now apply pair_eqb_eq].
+Qed.
+
+Lemma set_put_in : forall p a m x, In x (set_put p a m) <-> x = (p, a) \/ In x m.
+Proof.
+  intros p a m x. unfold set_put. destruct (existsb (pair_eqb (p, a)) m) eqn:E.
+  - apply mem_in in E. split; [auto|intros [->|H]; auto].
+  - rewrite in_app_iff; simpl. intuition.
+Qed.
+
+Lemma set_put_nodup : forall p a m, NoDup m -> NoDup (set_put p a m).
+Proof.
+  intros p a m H. unfold set_put. destruct (existsb (pair_eqb (p, a)) m) eqn:E; [exact H|].
+  assert (N : ~ In (p, a) m) by (intros I; apply mem_in in I; congruence).
+  eapply Permutation_NoDup; [apply Permutation_cons_append|]. now constructor.
+Qed.
+
+Lemma put_all_in : forall l m x, In x (put_all l m) <-> In x l \/ In x m.
+Proof.
+  induction l as [|[p a] l IH]; intros m x; simpl; [intuition|].
+  unfold put_all in *; simpl. rewrite IH, set_put_in. intuition.
+Qed.
+
+Lemma put_all_nodup : forall l m, NoDup m -> NoDup (put_all l m).
+Proof.
+  induction l as [|[p a] l IH]; intros m H; simpl; [exact H|].
+  unfold put_all in *; simpl. apply IH, set_put_nodup, H.
+Qed.
+
+Lemma insert_sorted_perm : forall k m, Permutation (insert_sorted k m) (k :: m).
+Proof.
+  induction m as [|k' m IH]; simpl; [apply Permutation_refl|].
+  destruct (pair_compare k k'); try apply Permutation_refl.
+  eapply Permutation_trans; [apply perm_skip, IH|apply perm_swap].
+Qed.
+
+Lemma sort_pairs_perm : forall l, Permutation (sort_pairs l) l.
+Proof.
+  induction l as [|k l IH]; simpl; [constructor|].
+  eapply Permutation_trans; [apply insert_sorted_perm|]. now apply perm_skip.
+Qed.
+
+(* the named imports that are visited: every tagged (path, alias) pair exactly once *)
+Lemma named_visited : forall l, Permutation (sort_pairs (put_all l [])) (distinct l).
+Proof.
+  intros l. apply NoDup_Permutation.
+  - eapply Permutation_NoDup; [apply Permutation_sym, sort_pairs_perm|]. apply put_all_nodup. constructor.
+  - apply NoDup_nodup.
+  - intros x. unfold distinct. rewrite nodup_In. split; intros H.
+    + apply (Permutation_in _ (sort_pairs_perm _)) in H. apply put_all_in in H as [H|[]]. exact H.
+    + apply (Permutation_in _ (Permutation_sym (sort_pairs_perm _))). apply put_all_in. auto.
+Qed.
+
+(* the tree before fix 5f65f03: the map keyed by the path *)
 Lemma map_set_perm : forall k v m, ~ In k (map fst m) -> Permutation (map_set k v m) ((k, v) :: m).
 Proof.
   induction m as [|[k' v'] m IH]; intros H; simpl; [apply Permutation_refl|].
@@ -288,22 +354,6 @@ Proof.
   - apply Permutation_refl.
   - eapply Permutation_trans; [apply perm_skip, IH|apply perm_swap].
     intros I; apply H; simpl; auto.
-Qed.
-
-Lemma set_all_perm : forall l m, NoDup (map fst l ++ map fst m) -> Permutation (set_all l m) (l ++ m).
-Proof.
-  induction l as [|[k v] l IH]; intros m H; simpl; [apply Permutation_refl|].
-  simpl in H. inversion H as [|x xs Hn Hd]; subst.
-  assert (Hk : ~ In k (map fst m)) by (intros I; apply Hn, in_or_app; auto).
-  pose proof (map_set_perm k v m Hk) as P.
-  unfold set_all; simpl. fold (set_all l (map_set k v m)).
-  eapply Permutation_trans.
-  - apply IH. eapply Permutation_NoDup with (l := map fst l ++ k :: map fst m).
-    + apply Permutation_app_head. change (k :: map fst m) with (map fst ((k, v) :: m)).
-      apply Permutation_map, Permutation_sym, P.
-    + eapply Permutation_NoDup; [apply Permutation_middle|]. constructor; assumption.
-  - eapply Permutation_trans; [apply Permutation_app_head, P|].
-    apply Permutation_sym, Permutation_middle.
 Qed.
 
 (* ================================================================ lookups *)
@@ -378,41 +428,68 @@ Proof.
   - right. apply IH, H.
 Qed.
 
+Lemma in_named_tags : forall l p a, In (p, Some (Some a)) l -> In (p, a) (named_tags l).
+Proof.
+  induction l as [|[p' t'] l IH]; intros p a I; [contradiction|].
+  unfold named_tags; simpl. apply in_or_app. destruct I as [I|I].
+  - inversion I; subst. left; simpl; auto.
+  - right. apply IH, I.
+Qed.
+
+Lemma in_root_tags : forall l p, In (p, Some None) l -> In p (root_tags l).
+Proof.
+  induction l as [|[p' t'] l IH]; intros p I; [contradiction|].
+  unfold root_tags; simpl. apply in_or_app. destruct I as [I|I].
+  - inversion I; subst. left; simpl; auto.
+  - right. apply IH, I.
+Qed.
+
+(* what the tagged specs of a package contribute together: every (path, alias) pair once (a pair
+   repeated in several specs is one import), every root import *)
+Definition contributions (l : list (string * option (option string))) : list func :=
+  flat_map contribN (distinct (named_tags l)) ++ flat_map (fun p => contribN (p, EmptyString)) (root_tags l).
+
 Theorem exposes_exactly : forall files,
-  no_raw files ->
-  NoDup (map fst (named_tags (tags files))) ->
+  (forall p t, In (p, Some t) (tags files) -> golist dir p <> None) ->
+  exists imps, set_imports golist dir files = Some imps /\
+               Permutation (exposed imps) (contributions (tags files)).
+Proof.
+  intros files RES.
+  unfold set_imports, set_imports_gen. rewrite scan_flat, scan_steps. simpl app.
+  change (tags_of_specs (specs_of files)) with (tags files).
+  set (named := named_tags (tags files)) in *. set (roots := root_tags (tags files)).
+  pose proof (named_visited named) as P.
+  destruct (collect_ok (sort_pairs (put_all named []))) as (imps1 & E1 & X1).
+  { intros pa I. apply (Permutation_in _ P) in I. unfold distinct in I. apply nodup_In in I.
+    destruct pa as [p a]. apply named_in_tags in I. eapply RES; eauto. }
+  destruct (collect_root_ok roots) as (imps2 & E2 & X2).
+  { intros p I. apply root_in_tags in I. eapply RES; eauto. }
+  rewrite E1, E2. eexists; split; [reflexivity|].
+  unfold exposed, contributions in *. rewrite flat_map_app, X1, X2.
+  apply Permutation_app_tail. now apply Permutation_flat_map.
+Qed.
+
+(* no (path, alias) pair tagged twice: the sum of the contributions of the single specs *)
+Theorem exposes_exactly_distinct : forall files,
+  NoDup (named_tags (tags files)) ->
   (forall p t, In (p, Some t) (tags files) -> golist dir p <> None) ->
   exists imps, set_imports golist dir files = Some imps /\
                Permutation (exposed imps) (flat_map contrib (tags files)).
 Proof.
-  intros files NR ND RES.
-  unfold set_imports, set_imports_gen. rewrite scan_flat, scan_steps. simpl app.
-  rewrite (tags_of_specs_rule files NR).
-  set (named := named_tags (tags files)) in *. set (roots := root_tags (tags files)).
-  assert (P : Permutation (set_all named []) named).
-  { rewrite <- (app_nil_r named) at 2. apply set_all_perm. simpl. now rewrite app_nil_r. }
-  destruct (collect_ok (set_all named [])) as (imps1 & E1 & X1).
-  { intros pa I. apply (Permutation_in _ P) in I. destruct pa as [p a].
-    apply named_in_tags in I. eapply RES; eauto. }
-  destruct (collect_root_ok roots) as (imps2 & E2 & X2).
-  { intros p I. apply root_in_tags in I. eapply RES; eauto. }
-  rewrite E1, E2. eexists; split; [reflexivity|].
-  unfold exposed in *. rewrite flat_map_app, X1, X2.
-  eapply Permutation_trans; [|apply Permutation_sym, contrib_split].
-  apply Permutation_app_tail. now apply Permutation_flat_map.
+  intros files ND RES. destruct (exposes_exactly files RES) as (imps & E & P).
+  exists imps; split; [exact E|].
+  eapply Permutation_trans; [exact P|]. unfold contributions, distinct.
+  rewrite (nodup_fixed_point pair_dec ND). apply Permutation_sym, contrib_split.
 Qed.
 
 Theorem lookup_error : forall files p t,
-  no_raw files ->
-  NoDup (map fst (named_tags (tags files))) ->
   In (p, Some t) (tags files) -> golist dir p = None ->
   set_imports golist dir files = None.
 Proof.
-  intros files p t NR ND I G.
-  unfold set_imports, set_imports_gen. rewrite scan_flat, scan_steps. simpl app. rewrite (tags_of_specs_rule files NR).
+  intros files p t I G.
+  unfold set_imports, set_imports_gen. rewrite scan_flat, scan_steps. simpl app.
+  change (tags_of_specs (specs_of files)) with (tags files).
   set (named := named_tags (tags files)) in *. set (roots := root_tags (tags files)).
-  assert (P : Permutation (set_all named []) named).
-  { rewrite <- (app_nil_r named) at 2. apply set_all_perm. simpl. now rewrite app_nil_r. }
   assert (CN : forall l, In p (map fst l) -> collect (fun pa => get_import_from golist dir (fst pa) (snd pa)) l = None).
   { induction l as [|pa l IH]; simpl; [contradiction|]. intros [H|H].
     - unfold get_import_from. rewrite H, G. reflexivity.
@@ -423,17 +500,11 @@ Proof.
     - rewrite (IH H). destruct (get_import_from golist dir q EmptyString); reflexivity. }
   destruct t as [a|].
   - rewrite CN; [reflexivity|].
-    apply (Permutation_in (l := map fst named)); [apply Permutation_map, Permutation_sym, P|].
-    subst named. clear - I. induction (tags files) as [|[p' t'] l IH]; [contradiction|].
-    unfold named_tags; simpl. rewrite map_app. apply in_or_app. destruct I as [I|I].
-    + inversion I; subst. left; simpl; auto.
-    + right. apply IH, I.
-  - destruct (collect _ (set_all named [])); [|reflexivity].
-    rewrite CR; [reflexivity|]. subst roots. clear - I.
-    induction (tags files) as [|[p' t'] l IH]; [contradiction|].
-    unfold root_tags; simpl. apply in_or_app. destruct I as [I|I].
-    + inversion I; subst. left; simpl; auto.
-    + right. apply IH, I.
+    apply in_named_tags in I. fold named in I.
+    apply (in_map fst) with (x := (p, a)).
+    apply (Permutation_in _ (Permutation_sym (sort_pairs_perm _))). apply put_all_in. auto.
+  - destruct (collect _ (sort_pairs (put_all named []))); [|reflexivity].
+    rewrite CR; [reflexivity|]. apply in_root_tags, I.
 Qed.
 
 Theorem untagged_nothing : forall files,
@@ -444,8 +515,7 @@ Proof.
   assert (N : named_tags (tags_of_specs (specs_of files)) = [] /\ root_tags (tags_of_specs (specs_of files)) = []).
   { induction (specs_of files) as [|s l IH]; [split; reflexivity|].
     destruct IH as [IH1 IH2]; [intros; apply H; simpl; auto|].
-    unfold named_tags, root_tags in *; simpl. rewrite tagged_code, (H s), IH1, IH2 by (simpl; auto).
-    destruct (is_raw s); simpl; auto. }
+    unfold named_tags, root_tags in *; simpl. rewrite (H s), IH1, IH2 by (simpl; auto). simpl; auto. }
   destruct N as [-> ->]. reflexivity.
 Qed.
 
@@ -487,14 +557,13 @@ Proof.
 Qed.
 
 Theorem shared_alias : forall files a,
-  no_raw files ->
-  NoDup (map fst (named_tags (tags files))) ->
+  NoDup (named_tags (tags files)) ->
   (forall p t, In (p, Some t) (tags files) -> golist dir p <> None) ->
   exists imps, set_imports golist dir files = Some imps /\
                Permutation (filter (has_alias a) (exposed imps))
                            (flat_map contrib (filter (tag_has_alias a) (tags files))).
 Proof.
-  intros files a NR ND RES. destruct (exposes_exactly files NR ND RES) as (imps & E & P).
+  intros files a ND RES. destruct (exposes_exactly_distinct files ND RES) as (imps & E & P).
   exists imps; split; [exact E|]. rewrite <- filter_contrib. now apply filter_perm.
 Qed.
 End Look.
@@ -510,7 +579,7 @@ Theorem default_aliases_ignored : forall g g' dir files,
   set_imports g dir files = set_imports g' dir files.
 Proof.
   intros g g' dir files H. unfold set_imports, set_imports_gen.
-  destruct (scan get_import_path files) as [m r].
+  destruct (scan get_import_path set_put files) as [m r].
   assert (E : forall p a, get_import_from g dir p a = get_import_from g' dir p a).
   { intros p a. unfold get_import_from. specialize (H p).
     destruct (g dir p) as [pk|], (g' dir p) as [pk'|]; simpl in H; try discriminate; [|reflexivity].
@@ -552,21 +621,24 @@ Definition w_files : list file :=
          gd_specs := [ {| is_doc := None; is_comment := None; is_path := "ex/imp/a"; is_raw := false |} ] |};
       {| gd_doc := Some ["// mage:import zzz"]; gd_lparen := true;
          gd_specs := [ {| is_doc := Some ["// mage:import x"; "//MAGE:IMPORT  Tools"]; is_comment := None; is_path := "ex/imp/b"; is_raw := false |};
-                       {| is_doc := None; is_comment := Some ["// mage:import tools"]; is_path := "ex/imp/c"; is_raw := false |};
-                       {| is_doc := Some ["// mage:import"; "// not the last line"]; is_comment := None; is_path := "ex/imp/d"; is_raw := false |} ] |} ] ].
+                       {| is_doc := None; is_comment := Some ["// mage:import tools"]; is_path := "ex/imp/c"; is_raw := true |};
+                       {| is_doc := Some ["// mage:import"; "// not the last line"]; is_comment := None; is_path := "ex/imp/d"; is_raw := false |} ] |} ];
+    [ {| gd_doc := Some ["// the same package under a second alias"; "// mage:import ci"]; gd_lparen := false;
+         gd_specs := [ {| is_doc := None; is_comment := None; is_path := "ex/imp/b"; is_raw := false |} ] |};
+      {| gd_doc := None; gd_lparen := false;
+         gd_specs := [ {| is_doc := None; is_comment := Some ["// mage:import Tools"]; is_path := "ex/imp/b"; is_raw := false |} ] |} ] ].
+
+Definition w_tags : list (string * option (option string)) :=
+  [("ex/imp/a", Some None); ("ex/imp/b", Some (Some "tools")); ("ex/imp/c", Some (Some "tools")); ("ex/imp/d", None);
+   ("ex/imp/b", Some (Some "ci")); ("ex/imp/b", Some (Some "tools"))]%string.
 
 Lemma nonvacuous_c19 :
-  tags w_files = [("ex/imp/a", Some None); ("ex/imp/b", Some (Some "tools")); ("ex/imp/c", Some (Some "tools")); ("ex/imp/d", None)] /\
-  no_raw w_files /\
-  NoDup (map fst (named_tags (tags w_files))) /\
+  tags w_files = w_tags /\
   (forall p t, In (p, Some t) (tags w_files) -> w_golist "build" p <> None) /\
   option_map (fun imps => map target_name (exposed imps)) (set_imports w_golist "build" w_files) =
-    Some ["tools:Docker:Push"; "tools:Build"; "tools:Docker:Push"; "tools:Build"; "Docker:Push"; "Build"]%string.
+    Some ["ci:Docker:Push"; "ci:Build"; "tools:Docker:Push"; "tools:Build"; "tools:Docker:Push"; "tools:Build"; "Docker:Push"; "Build"]%string.
 Proof.
-  split; [vm_compute; reflexivity|]. split.
-  { intros s H. vm_compute in H. repeat (destruct H as [H|H]; [subst s; reflexivity|]). contradiction. }
-  split.
-  { vm_compute. repeat constructor; simpl; intuition discriminate. }
+  split; [vm_compute; reflexivity|].
   split; [|vm_compute; reflexivity].
   intros p t H. vm_compute in H.
   repeat (destruct H as [H|H]; [inversion H; subst; vm_compute; discriminate|]). contradiction.
@@ -579,35 +651,38 @@ Lemma start_dir_before_repair_refuted :
     (exists imps, set_imports g dir files = Some imps /\ exposed imps <> []) /\
     set_imports_start_dir g dir files = None.
 Proof.
-  exists w_golist, "build"%string, w_files. split; [exact (proj1 (proj2 (proj2 (proj2 nonvacuous_c19))))|].
+  exists w_golist, "build"%string, w_files. split; [exact (proj1 (proj2 nonvacuous_c19))|].
   split; [|vm_compute; reflexivity].
   destruct (set_imports w_golist "build" w_files) as [imps|] eqn:E; [|vm_compute in E; discriminate].
   exists imps; split; [reflexivity|]. vm_compute in E. inversion E. discriminate.
 Qed.
 
-(* the limit of exposes_exactly's NoDup hypothesis: one package under two aliases - only the
-   alias of the last spec survives (importNames is keyed by the import path) *)
+(* before fix 5f65f03 importNames was keyed by the import path: one package under two aliases was
+   exposed under the alias of the last spec only; now under both *)
 Definition w_two : list file :=
   [ [ {| gd_doc := Some ["// mage:import one"]; gd_lparen := false;
          gd_specs := [ {| is_doc := None; is_comment := None; is_path := "ex/imp/a"; is_raw := false |} ] |} ];
     [ {| gd_doc := Some ["// mage:import two"]; gd_lparen := false;
          gd_specs := [ {| is_doc := None; is_comment := None; is_path := "ex/imp/a"; is_raw := false |} ] |} ] ].
 
-Lemma one_package_two_aliases_refuted :
+Lemma one_package_two_aliases_before_repair_refuted :
   exists g dir files,
     tags files = [("ex/imp/a", Some (Some "one")); ("ex/imp/a", Some (Some "two"))]%string /\
     g dir "ex/imp/a"%string <> None /\
     option_map (fun imps => map target_name (exposed imps)) (set_imports g dir files) =
+      Some ["one:Docker:Push"; "one:Build"; "two:Docker:Push"; "two:Build"]%string /\
+    option_map (fun imps => map target_name (exposed imps)) (set_imports_path_keyed g dir files) =
       Some ["two:Docker:Push"; "two:Build"]%string.
 Proof.
   exists w_golist, "build"%string, w_two. split; [vm_compute; reflexivity|].
-  split; vm_compute; [discriminate|reflexivity].
+  split; [vm_compute; discriminate|]. split; vm_compute; reflexivity.
 Qed.
 
-(* CURRENT code: a tagged import whose path is written as a raw string literal is not scanned
-   (lit2string wants double quotes) *)
-Lemma raw_path_refuted :
-  exists s, is_raw s = true /\ tag_rule s = Some (Some "one"%string) /\ tagged s = None.
+(* before fix 48f17db lit2string wanted double quotes: a tagged import whose path is a raw string
+   literal was not scanned *)
+Lemma raw_path_before_repair_refuted :
+  exists s, is_raw s = true /\ tag_rule s = Some (Some "one"%string) /\ tagged s = Some (Some "one"%string) /\
+            tagged_before_48f17db s = None.
 Proof.
   exists {| is_doc := Some ["// mage:import one"]; is_comment := None; is_path := "ex/imp/a"; is_raw := true |}.
   repeat split; vm_compute; reflexivity.
